@@ -12,9 +12,9 @@ NEEDS = {"lib": ["dev", "release"]}
 RULE = ("mnemonic.seed events compared with hashlib PBKDF2-HMAC-SHA512(canonical phrase, NFKD('mnemonic'+pw), 2048); phrases of "
         "all five lengths in canonical and hostile ASCII-whitespace layouts; passphrases: empty, ASCII, long (up to 1 MiB, pairs differing in the last byte, around 2^16 bytes before and after normalisation), NFKD-equivalent "
         "pairs, compatibility characters, Hangul, astral plane, combining-mark reorderings, random assigned code points "
-        "(Unicode 14 repertoire). distinct = distinct (phrase text, passphrase, profile); non-trivial = 64-byte seed compared")
+        "(Unicode 14 repertoire). several seeds in a row from one parsed phrase object; distinct = distinct (phrase text, passphrase, profile); non-trivial = 64-byte seed compared")
 REQUIRED = (["len-%d" % n for n in bip39.LEGAL_COUNTS] + ["pw-empty", "pw-ascii", "pw-long-salt>128B", "nfkd-changes-salt", "pw-astral",
-            "layout-messy", "phrase>128B", "phrase<=128B", "nfkd-pair-equal", "pw-hangul", "pw-combining-reorder", "pw-whitespace-edge", "layout-unicode-whitespace", "pw-combining-run>30", "pw-combining-run<=30", "pw-huge>=64KiB", "pw-huge-after-nfkd"])
+            "layout-messy", "phrase>128B", "phrase<=128B", "nfkd-pair-equal", "pw-hangul", "pw-combining-reorder", "pw-whitespace-edge", "layout-unicode-whitespace", "pw-combining-run>30", "pw-combining-run<=30", "pw-huge>=64KiB", "pw-huge-after-nfkd", "same-object-several-passphrases"])
 ASSUMPTIONS = ["passphrase code points are restricted to those assigned in Unicode 14 (Python's table); the Unicode stability "
                "policy guarantees the crate's newer table normalises them identically"]
 
@@ -117,7 +117,23 @@ def judge_pair(case, obs):
     return v
 
 
-JUDGES = {"seed": judge_seed, "pair": judge_pair}
+def judge_same_object(case, obs):
+    """Several seeds asked of ONE parsed phrase: each is the reference seed for its own passphrase."""
+    v = V()
+    o = obs[0]
+    if "ok" not in o and "err" not in o:
+        return v
+    req = case["steps"][0]["lib"]
+    if "ok" not in o:
+        return v.bad("C02/same-object/rejected", "valid phrase rejected: %s" % o.get("err"))
+    words = split_ascii(req["phrase"])
+    for k, (pw, got) in enumerate(zip(req["passwords"], o["ok"]["seeds"])):
+        if got != bip39.seed(words, pw).hex():
+            return v.bad("C02/same-object/seed-mismatch", "seed number %d asked of the same parsed phrase (passphrase %r) differs from the reference" % (k + 1, pw[:40]))
+    return v.bucket("same-object-several-passphrases")
+
+
+JUDGES = {"seed": judge_seed, "pair": judge_pair, "same-object": judge_same_object}
 
 
 def shards(tier, seed):
@@ -203,6 +219,10 @@ def gen(shard, rng, tier):
             pool_pw.append((pw, tags))
             del pool_pw[:-6]
         yield from both(lib_case("seed", {"op": "mnemonic.seed", "phrase": phrase, "password": pw}, {"cls": "seed", "tags": tags}))
+        if i % 10 == 3:
+            pw2 = _password(rng)[0]
+            yield from both({"j": "same-object", "x": {"cls": "same-object"}, "steps": [
+                {"lib": {"op": "mnemonic.seeds", "phrase": " ".join(words), "passwords": [pw, pw2, pw, "", pw2]}}]})
         if i % 6 == 0:
             a, b = rng.choice([p for p in NFKD_PAIRS if p[1]])
             pre, post = rand_unicode(rng, rng.randint(0, 3)), rand_unicode(rng, rng.randint(0, 3))
